@@ -253,6 +253,39 @@ def _dispatch_flags(m, f):
     params = {a.arg for a in f.args.args + f.args.kwonlyargs}
     S = sorted(v for v in cand["src"] if ctx_of[v] == {"src"} and v not in params and tested_outside(v, "src"))
     D = sorted(v for v in cand["dest"] if ctx_of[v] == {"dest"} and v not in params and tested_outside(v, "dest"))
+    # primary definition, independent of the nesting: the local assigned from a call that is handed the event's source (resp.
+    # destination) path - directly, through getattr, or through a local holding it
+    def path_of(e, depth=0):
+        if isinstance(e, ast.Attribute) and isinstance(e.value, ast.Name) and e.value.id == "event" and e.attr in ("src_path", "dest_path"):
+            return e.attr
+        if isinstance(e, ast.Call) and pyfront.call_name(e) == "getattr" and len(e.args) >= 2 and isinstance(e.args[0], ast.Name) \
+                and e.args[0].id == "event" and pyfront.const(e.args[1]) in ("src_path", "dest_path"):
+            return pyfront.const(e.args[1])
+        if isinstance(e, ast.Name) and depth < 3:
+            defs = [a.value for a in ast.walk(f) if isinstance(a, ast.Assign) and any(isinstance(t, ast.Name) and t.id == e.id for t in a.targets)]
+            if len(defs) == 1:
+                return path_of(defs[0], depth + 1)
+        return None
+    by_call = {"src_path": set(), "dest_path": set()}
+    for n in ast.walk(f):
+        if isinstance(n, ast.Assign) and len(n.targets) == 1 and isinstance(n.targets[0], ast.Name) and isinstance(n.value, ast.Call) \
+                and (pyfront.call_name(n.value) or "").startswith("self."):
+            for a in n.value.args:
+                pth = path_of(a)
+                if pth:
+                    by_call[pth].add(n.targets[0].id)
+    if len(by_call["src_path"]) == 1 and len(by_call["dest_path"]) == 1 and by_call["src_path"] != by_call["dest_path"]:
+        S, D = sorted(by_call["src_path"]), sorted(by_call["dest_path"])
+    # a match flag holds truth values: a local that is ever assigned the event itself or a newly built event is not one
+    def flaglike(v):
+        for n in ast.walk(f):
+            if isinstance(n, ast.Assign) and any(isinstance(t, ast.Name) and t.id == v for t in n.targets):
+                val = n.value
+                if (isinstance(val, ast.Name) and val.id == "event") or (isinstance(val, ast.Call) and (pyfront.call_name(val) or "").endswith("Event")):
+                    return False
+        return True
+    S = [v for v in S if flaglike(v)]
+    D = [v for v in D if flaglike(v)]
     track = set()
     for n in ast.walk(f):
         if isinstance(n, ast.Assign) and len(n.targets) == 1 and isinstance(n.targets[0], ast.Name):
@@ -281,10 +314,25 @@ def r4_move_conversion(repo=None):
     IN, idx = pyutil.truth_states(g, track)
     IN = {k: {tuple({"T": True, "F": False}.get(x, None if x is None else False) if False else x for x in st) for st in v} for k, v in IN.items()}
 
+    def path_of(e, depth=0):
+        """'src_path' / 'dest_path' when e is that attribute of the event, directly, as getattr(event, '<attr>', ...) or through a
+        local assigned once from one of these"""
+        if isinstance(e, ast.Attribute) and isinstance(e.value, ast.Name) and e.value.id == "event" and e.attr in ("src_path", "dest_path"):
+            return e.attr
+        if isinstance(e, ast.Call) and pyfront.call_name(e) == "getattr" and len(e.args) >= 2 and isinstance(e.args[0], ast.Name) \
+                and e.args[0].id == "event" and pyfront.const(e.args[1]) in ("src_path", "dest_path"):
+            return pyfront.const(e.args[1])
+        if isinstance(e, ast.Name) and depth < 3:
+            defs = [a.value for a in ast.walk(f) if isinstance(a, ast.Assign) and any(isinstance(t, ast.Name) and t.id == e.id for t in a.targets)]
+            if len(defs) == 1:
+                return path_of(defs[0], depth + 1)
+        return None
+
     def nodes_assigning(call, attr):
+        # the converted event: assigned to any local (the event name itself, or the value an inlined helper hands back)
         return [n for n in g.nodes if isinstance(n.ast, ast.Assign) and isinstance(n.ast.value, ast.Call)
-                and pyfront.call_name(n.ast.value) == call and n.ast.value.args and norm(ast.unparse(n.ast.value.args[0])) == "event." + attr
-                and norm(ast.unparse(n.ast.targets[0])) == "event"]
+                and pyfront.call_name(n.ast.value) == call and n.ast.value.args and path_of(n.ast.value.args[0]) == attr
+                and isinstance(n.ast.targets[0], ast.Name)]
     dels = nodes_assigning("FileDeletedEvent", "src_path")
     cres = nodes_assigning("FileCreatedEvent", "dest_path")
     wrong = [n for n in g.nodes if isinstance(n.ast, ast.Assign) and isinstance(n.ast.value, ast.Call)
@@ -305,6 +353,9 @@ def r4_move_conversion(repo=None):
         label = "tracked -> non-matching rename becomes FileDeletedEvent(src)" if kind == "del" else \
             "non-matching -> tracked rename (the writer's finalizing rename of a tmp. file) becomes FileCreatedEvent(dest)"
         if not nodes:
+            ctor = "FileDeletedEvent" if kind == "del" else "FileCreatedEvent"
+            if any(isinstance(c_, ast.Call) and pyfront.call_name(c_) == ctor for c_ in ast.walk(f)):
+                raise AnalysisError("%s: a %s is constructed, but not in a form this rule follows" % (q, ctor))
             r.violation(m.rel, q, "move conversion `%s` missing" % kind, "expected: " + label, line=f.lineno)
             continue
         sts = set()
@@ -330,12 +381,13 @@ def r4_move_conversion(repo=None):
     # both paths are matched against the handler's regexes (directly or through a helper)
     text = norm(ast.unparse(f))
     reach_text = text + " " + " ".join(norm(ast.unparse(h_)) for h_, c_, b_ in pyutil.local_helpers(m, m.fn(q), depth=3))
-    passed = all(any(isinstance(c_, ast.Call) and any(norm(ast.unparse(a_)) == pth for a_ in list(c_.args) + [k_.value for k_ in c_.keywords])
-                     for c_ in ast.walk(f)) for pth in ("event.src_path", "event.dest_path"))
-    if ".regexes" in reach_text and ".match(" in reach_text and "event.src_path" in text and "event.dest_path" in text:
+    passed = all(any(isinstance(c_, ast.Call) and any(path_of(a_) == pth for a_ in list(c_.args) + [k_.value for k_ in c_.keywords])
+                     for c_ in ast.walk(f)) for pth in ("src_path", "dest_path"))
+    mentions = all(any(path_of(x) == pth for x in ast.walk(f) if isinstance(x, (ast.Attribute, ast.Call))) for pth in ("src_path", "dest_path"))
+    if ".regexes" in reach_text and ".match(" in reach_text and mentions:
         r.ok("%s:%s %s" % (m.rel, f.lineno, q), "src_path and dest_path are each matched against the registered regexes")
-    elif passed:
-        raise AnalysisError("%s: event.src_path / event.dest_path are handed to calls, but no loop over the registered regexes was found "
+    elif passed or mentions:
+        raise AnalysisError("%s: event.src_path / event.dest_path are used, but no loop over the registered regexes was found "
                             "in the functions reached from dispatch (3 levels)" % q)
     else:
         r.violation(m.rel, q, "matching", "source and destination are not matched against the registered regex list", line=f.lineno)
@@ -501,6 +553,11 @@ def _r5_window(r, m):
                              and pyfront.const(c.args[0]) == "secs" for c in ast.walk(h)) for h, c_, b_ in pyutil.local_helpers(m, f, depth=2))
         if helper_has:
             raise AnalysisError("%s: the name time stamp is extracted in a helper; exemption of time-less names not analysed" % q)
+        # the time reaches the method as a parameter (extracted by its caller): the exemption is decided there - not followed
+        fparams = {a_.arg for a_ in f.args.args if a_.arg != "self"}
+        if any(isinstance(x, ast.Compare) and _is_window_cmp(x) and any(isinstance(y, ast.Name) and y.id in fparams for y in ast.walk(x)) for x in ast.walk(f)):
+            raise AnalysisError("%s: the time compared with the window is a parameter of the method; where it comes from (and whether "
+                                "time-less names are exempt) is decided by its callers, which this rule does not follow" % q)
         r.violation(m.rel, q, "window drop not conditional on match.group('secs') succeeding",
                     "an event for a name without a time stamp (a properties file) is compared with the time window through a "
                     "substitute time and dropped, although the listing returns properties files whatever the window", line=line)
